@@ -20,6 +20,7 @@ type BV = wrapperspb.BytesValue
 const (
 	ServiceName = "verif.Svc"
 	MUnary      = "/verif.Svc/Unary"
+	MUnary2     = "/verif.Svc/Unary2" // a second unary method: same programs, reply prefixed with "U2:"
 	MClient     = "/verif.Svc/ClientStream"
 	MServer     = "/verif.Svc/ServerStream"
 	MBidi       = "/verif.Svc/Bidi"
@@ -54,13 +55,13 @@ type StreamProg func(tag string, kind string, ss grpc.ServerStream) error
 
 // Impl dispatches to a program chosen by the call's tag.
 type Impl struct {
-	mu      sync.Mutex
-	unary   map[string]UnaryProg
-	stream  map[string]StreamProg
-	DefU    UnaryProg
-	DefS    StreamProg
-	invoked map[string]int
-	Returned map[string]uint64
+	mu            sync.Mutex
+	unary         map[string]UnaryProg
+	stream        map[string]StreamProg
+	DefU          UnaryProg
+	DefS          StreamProg
+	invoked       map[string]int
+	Returned      map[string]uint64
 	UnaryReturned map[string]uint64
 	// NilReply makes Unary return a nil reply for programs that return nil bytes and nil error? no: see UnaryRaw
 }
@@ -198,6 +199,26 @@ func unaryHandler(srv interface{}, ctx context.Context, dec func(interface{}) er
 	return interceptor(ctx, in, info, handler)
 }
 
+// unary2Handler serves the service's second unary method: the same tag-dispatched programs, with
+// the reply marked so that a caller can tell which method's handler answered.
+func unary2Handler(srv interface{}, ctx context.Context, dec func(interface{}) error, interceptor grpc.UnaryServerInterceptor) (interface{}, error) {
+	in := new(BV)
+	if err := dec(in); err != nil {
+		return nil, err
+	}
+	run := func(ctx context.Context, req interface{}) (interface{}, error) {
+		out, err := srv.(SvcServer).Unary(ctx, req.(*BV))
+		if err != nil || out == nil {
+			return out, err
+		}
+		return &BV{Value: append([]byte("U2:"), out.Value...)}, nil
+	}
+	if interceptor == nil {
+		return run(ctx, in)
+	}
+	return interceptor(ctx, in, &grpc.UnaryServerInfo{Server: srv, FullMethod: MUnary2}, run)
+}
+
 func streamHandler(kind string) grpc.StreamHandler {
 	return func(srv interface{}, ss grpc.ServerStream) error {
 		return srv.(SvcServer).Stream(kind, ss)
@@ -207,7 +228,7 @@ func streamHandler(kind string) grpc.StreamHandler {
 var Desc = grpc.ServiceDesc{
 	ServiceName: ServiceName,
 	HandlerType: (*SvcServer)(nil),
-	Methods:     []grpc.MethodDesc{{MethodName: "Unary", Handler: unaryHandler}},
+	Methods:     []grpc.MethodDesc{{MethodName: "Unary", Handler: unaryHandler}, {MethodName: "Unary2", Handler: unary2Handler}},
 	Streams: []grpc.StreamDesc{
 		{StreamName: "ClientStream", Handler: streamHandler("client"), ClientStreams: true},
 		{StreamName: "ServerStream", Handler: streamHandler("server"), ServerStreams: true},
@@ -226,6 +247,16 @@ func WithTag(ctx context.Context, tag string) context.Context {
 func Invoke(ctx context.Context, cc grpc.ClientConnInterface, tag string, req []byte) ([]byte, error) {
 	out := new(BV)
 	err := cc.Invoke(WithTag(ctx, tag), MUnary, &BV{Value: req}, out)
+	if err != nil {
+		return nil, err
+	}
+	return out.Value, nil
+}
+
+// Invoke2 calls the service's second unary method; its reply carries the prefix "U2:".
+func Invoke2(ctx context.Context, cc grpc.ClientConnInterface, tag string, req []byte) ([]byte, error) {
+	out := new(BV)
+	err := cc.Invoke(WithTag(ctx, tag), MUnary2, &BV{Value: req}, out)
 	if err != nil {
 		return nil, err
 	}
